@@ -634,20 +634,29 @@ fn cmd_threads(out: &mut dyn Write, n_threads: usize, rounds: usize, cfg: DumpCf
         }
     });
 
+    // Reference: every input lexed on a thread of its own (no earlier call on that thread)
     let reference: Vec<String> = srcs
         .iter()
         .map(|src| {
-            let mut s = String::new();
-            dump_line(&mut s, src, cfg);
-            s
+            std::thread::scope(|scope| {
+                scope
+                    .spawn(move || {
+                        let mut s = String::new();
+                        dump_line(&mut s, src, cfg);
+                        s
+                    })
+                    .join()
+                    .unwrap_or_default()
+            })
         })
         .collect();
 
     let mut comparisons: u64 = 0;
-    let mut bad: Vec<usize> = Vec::new();
+    // (input, the input lexed right before it on the same thread)
+    let mut bad: Vec<(usize, Option<usize>)> = Vec::new();
 
     for round in 0..rounds {
-        let results: Vec<(u64, Vec<usize>)> = std::thread::scope(|scope| {
+        let results: Vec<(u64, Vec<(usize, Option<usize>)>)> = std::thread::scope(|scope| {
             let handles: Vec<_> = (0..n_threads)
                 .map(|t| {
                     let srcs = &srcs;
@@ -665,13 +674,15 @@ fn cmd_threads(out: &mut dyn Write, n_threads: usize, rounds: usize, cfg: DumpCf
                         let mut cmp = 0u64;
                         let mut bad = Vec::new();
                         let mut s = String::new();
+                        let mut prev: Option<usize> = None;
                         for i in order {
                             s.clear();
                             dump_line(&mut s, &srcs[i], cfg);
                             cmp += 1;
                             if s != reference[i] {
-                                bad.push(i);
+                                bad.push((i, prev));
                             }
+                            prev = Some(i);
                         }
                         (cmp, bad)
                     })
@@ -688,25 +699,28 @@ fn cmd_threads(out: &mut dyn Write, n_threads: usize, rounds: usize, cfg: DumpCf
         }
     }
 
-    // History independence: once more sequentially, after everything else
+    // History independence: once more sequentially on this thread, after everything else
     let mut s = String::new();
+    let mut prev: Option<usize> = None;
     for (i, src) in srcs.iter().enumerate() {
         s.clear();
         dump_line(&mut s, src, cfg);
         comparisons += 1;
         if s != reference[i] {
-            bad.push(i);
+            bad.push((i, prev));
         }
+        prev = Some(i);
     }
 
     bad.sort_unstable();
-    bad.dedup();
+    bad.dedup_by_key(|b| b.0);
 
     if bad.is_empty() {
         let _ = writeln!(out, "threads ok {} {}", srcs.len(), comparisons);
     } else {
-        for i in bad.iter().take(20) {
-            let _ = writeln!(out, "threads mismatch {}", hexes[*i]);
+        for (i, prev) in bad.iter().take(20) {
+            let p = prev.map(|p| hexes[p].clone()).unwrap_or_else(|| "-".to_string());
+            let _ = writeln!(out, "threads mismatch {} after {}", hexes[*i], p);
         }
     }
 }
